@@ -137,8 +137,10 @@ func c12(r *core.Run) {
 	r.Rule("C12/R5", "the release runs on every reward block: each call on the chain block entry -> gauge iteration is control-dependent only on decisions over block height, parameters and constants")
 	r.Rule("C12/R6", "records decoded on the reward path go into a variable local to the iteration: a decode target shared across gauges accumulates the Coins of every gauge visited before, so later gauges release several tranches at once")
 	r.Rule("C12/R7", "the tranche released from a gauge is converted to whole units by truncation only: cumulative release never runs ahead of the elapsed fraction of the deposit")
+	r.Rule("C12/R9", "the gauge record written is the gauge as it stands after a merge: no assignment to a local record between its marshalling and the store write")
 	r.Rule("C12/R8", "the coins moved into a gauge account are the value handed to the gauge constructor, in the constructing unit or in a helper given the gauge: the record (which the release formula reads) and the account agree")
 	r.Rule("C12/R4", "interval: every gauge->module send is behind Before(End, now)=false, Before(End, Start)=false, Equal(End, Start)=false and Empty(balance)=false")
+	marshalIsFresh(r, "C12/R9", "storage")
 	bb, _ := p.BlockEntries()
 	var entry *ssa.Function
 	for _, fn := range bb {
@@ -337,6 +339,76 @@ func c12(r *core.Run) {
 					swept = true
 				}
 			}
+			// The executions that perform the delete, each judged by the conditions it has evaluated: the classes do not
+			// depend on how the decision reaches the delete (separate ifs, one merged condition, a flag and one exit).
+			execsOf := func() ([]core.AbsExec, bool) {
+				if h := loopHeaderOf(fn, e.Instr.Block()); h != nil {
+					return p.LoopBodyExecutions(fn, h) // one iteration of the gauge loop
+				}
+				return p.AbstractExecutions(fn)
+			}
+			if execs, complete := execsOf(); complete {
+				type verdict struct {
+					ok  string
+					key string
+				}
+				seenV := map[string]bool{}
+				for i := range execs {
+					ex := &execs[i]
+					when, performed := ex.Calls[e.Instr]
+					if !performed {
+						continue
+					}
+					var keyParts []string
+					isEmpty, isDegenerate := false, false
+					for _, c := range p.ExecConditions(ex, when) {
+						if rel := timeRel(p, c.Atom, c.Truth, isEnd, isNow); rel != "" {
+							keyParts = append(keyParts, "End"+rel+"now")
+						}
+						if rel := timeRel(p, c.Atom, c.Truth, isEnd, isStart); rel != "" {
+							keyParts = append(keyParts, "End"+rel+"Start")
+						}
+						if empty(c.Atom, c.Truth) {
+							isEmpty = true
+						}
+						if degenerate(c.Atom, c.Truth) {
+							isDegenerate = true
+						}
+					}
+					sort.Strings(keyParts)
+					keyParts = uniq(keyParts)
+					v := verdict{}
+					switch {
+					case swept:
+						v.ok = "gauge:delete-after-sweep:" + strings.Join(keyParts, "&")
+					case isEmpty:
+						v.ok = "gauge:delete-behind-empty-balance"
+					case isDegenerate:
+						v.ok = "gauge:delete-degenerate-interval"
+					default:
+						// only the relations that make the class what it is: those of the deleting decision (drop what
+						// earlier, failed alternatives established in the negative)
+						var pos []string
+						for _, k := range keyParts {
+							if !strings.Contains(k, ">=") && !strings.Contains(k, ">") || strings.Contains(k, "<") {
+								pos = append(pos, k)
+							}
+						}
+						v.key = "gauge:removed-undrained:" + strings.Join(pos, "&")
+					}
+					id := v.ok + "|" + v.key
+					if seenV[id] {
+						continue
+					}
+					seenV[id] = true
+					if v.ok != "" {
+						r.Ok("C12/R3", v.ok, p.InstrPos(e.Instr), "delete of a drained or degenerate gauge")
+					} else {
+						r.Violation("C12/R3", v.key, p.InstrPos(e.Instr), "a gauge record is deleted without checking that its account is empty and without sweeping it: the remainder accrued since the last reward block is stranded and can never be paid out")
+					}
+				}
+				continue
+			}
 			// A delete reached through several decisions (if A || B { delete }) is judged once per way in: each
 			// incoming decision edge of the deleting block is a class of its own, so that merging or splitting the
 			// conditions does not change what is reported.
@@ -426,7 +498,7 @@ func c12(r *core.Run) {
 			}
 		}
 	}
-	r.Floor("C12/R3", nDel, 2, "gauge deletes on the reward path")
+	r.Floor("C12/R3", nDel, 1, "gauge deletes on the reward path")
 	// constructor call sites: end ⊵ Ctx.BlockTime through time.Add / AddDate (supports the degenerate-interval exception)
 	hs, _ := p.Handlers()
 	nCall := 0
